@@ -1047,7 +1047,13 @@ func (in *inliner) expand(call *ast.CallExpr, obj *types.Func, recv ast.Expr, lh
 		if eds[i].s != eds[j].s {
 			return eds[i].s < eds[j].s
 		}
-		return eds[i].e > eds[j].e // the removal of a defer statement before the renames inside it
+		// at one position: insertions (declarations put in front of a rewritten :=) first, then the longer replacement (the removal of
+		// a defer statement before the renames inside it)
+		zi, zj := eds[i].s == eds[i].e, eds[j].s == eds[j].e
+		if zi != zj {
+			return zi
+		}
+		return eds[i].e > eds[j].e
 	})
 	var body bytes.Buffer
 	last := bodyStart
